@@ -11,7 +11,7 @@ META = {
                  "reading of mutated trees) and an independent equality oracle; engine-level checkpoints judged by the oracle only",
     "level_text": "proof about model + differential correspondence + independent oracle on the implementation",
     "level_note": "Proved: value <-> SerializableValue <-> JSON tree round trip for every value with in-range integers (all floats, NaN up to "
-                  "payload), event round trip for every event whose timestamp is a whole millisecond, lists of events (checkpoint contents); "
+                  "payload; non-finite floats are written as named strings since fix b24e948), event round trip for every event whose timestamp is a whole millisecond, lists of events (checkpoint contents); "
                   "refuted by witness for sub-millisecond timestamps (known finding). Modelled, not proved: the JSON text layer "
                   "(serde_json printing/parsing, codec::is_json sniffing) is a Section pair print/parse with the contract parse(print t) = "
                   "Some t — the driver parses the real text with its own parser and compares trees, floats by bits; HashMap iteration order "
@@ -123,13 +123,15 @@ def gen_event_tree(rng):
     elif c == 3:
         del kv[rng.below(3)]
     elif c == 4:
-        kv[1] = (kv[1][0], rng.choice([("d", C.f2b(5.0)), ("i", C.U64_MAX), ("i", C.I64_MIN), ("s", C.cps("5")), ("n",)]))
+        kv[1] = (kv[1][0], rng.choice([("d", C.f2b(5.0)), ("i", C.U64_MAX), ("i", C.I64_MAX + 1), ("i", -9_000_000_000_000), ("s", C.cps("5")), ("n",)]))
     elif c == 5 and kv[2][1][1]:
         f = list(kv[2][1][1])
         f.append((f[0][0], ("o", [(C.cps("Int"), ("i", 77))])))       # duplicate field key: the later one wins
         kv[2] = (kv[2][0], ("o", f))
     elif c == 6:
-        return mutate(rng, t)
+        # a random local change inside the fields (the timestamp is handled above: values outside chrono's range are
+        # replaced by the wall clock in From<SerializableEvent>, which the model does not follow)
+        kv[2] = (kv[2][0], mutate(rng, kv[2][1]))
     return ("o", kv)
 
 
